@@ -124,6 +124,31 @@ Section C09.
     exists a, up (parent (k + wn)) a /\ ole K cmp (ph K hd (loser L a)) (hd i) /\ loser L a <> Z.of_nat wn.
   Proof. exact (path_covers K cmp cmp_opp cmp_trans). Qed.
 
+  (* the four statements together: the invariant "the overall winner is a
+     minimal head and the runner-up lies on its path" is established by the
+     initial tournament and preserved by replayGames *)
+  Theorem C09_loser_tree :
+    (forall (bufs : list (buf K)) leaves,
+       length leaves = length bufs ->
+       (forall i, (i < length bufs)%nat -> nth i leaves (-1) = lv K (heads K bufs) i) ->
+       let r := play_initial K cmp (S (length bufs)) bufs leaves (repeat 0 (length bufs)) 0 in
+       TreeInv K cmp (length bufs) (fst r) (snd r) (heads K bufs)) /\
+    (forall k L hd W wn,
+       Shape K cmp k L (Z.of_nat wn) hd W ->
+       forall bufs : list (buf K), length bufs = k ->
+       (forall i, i <> wn -> heads K bufs i = hd i) ->
+       let r := replay_walk K cmp k bufs L (lv K (heads K bufs) wn) (parent (k + wn)) in
+       TreeInv K cmp k (fst r) (snd r) (heads K bufs)) /\
+    (forall k L w hd W,
+       Shape K cmp k L w hd W -> forall i, (i < k)%nat -> ole K cmp (ph K hd w) (hd i)) /\
+    (forall k L hd W wn,
+       Shape K cmp k L (Z.of_nat wn) hd W -> forall i, (i < k)%nat -> i <> wn ->
+       exists a, up (parent (k + wn)) a /\ ole K cmp (ph K hd (loser L a)) (hd i) /\ loser L a <> Z.of_nat wn).
+  Proof.
+    exact (conj C09_loser_tree_initial (conj C09_loser_tree_replay
+            (conj C09_loser_tree_winner_minimal C09_loser_tree_runner_up_on_path))).
+  Qed.
+
   (* hence runBound is <= the head of every other reader *)
   Theorem C09_loser_tree_run_bound : forall (m : mk K) hd wn,
     KPre K cmp m hd -> k_winner m = Z.of_nat wn ->
@@ -203,6 +228,7 @@ Print Assumptions C09_loser_tree_initial.
 Print Assumptions C09_loser_tree_replay.
 Print Assumptions C09_loser_tree_winner_minimal.
 Print Assumptions C09_loser_tree_runner_up_on_path.
+Print Assumptions C09_loser_tree.
 Print Assumptions C09_loser_tree_run_bound.
 Print Assumptions C09_mergeK_refines.
 Print Assumptions C09_mergeK_correct.
